@@ -19,7 +19,10 @@ import (
 
 var c05Symbols = []string{"/", "=", "-", "0", "7", "a", "k", "é"}
 
-var c05Keys = []string{".name", ".fullname", "/k", "/a", "/gomaxprocs", "/", "cfg", "missing", "other"}
+var c05Keys = []string{".name", ".fullname", "/k", "/a", "/gomaxprocs", "/", "cfg", "missing", "other",
+	// sub-name keys built from the separators themselves: a key containing '/' can never be the key of a segment
+	// (names are split at every '/'), keys containing '=' or '-' or a multi-byte rune must be compared whole
+	"/a/k", "/k/", "//", "/=", "/k=", "/-7", "/é", "/a/"}
 
 // c05Filters are fixed literal filters whose match must equal "the
 // reference value of the key equals the literal".
@@ -30,6 +33,7 @@ var c05Filters = []struct{ key, lit string }{
 	{"/a", "0"}, {"/a", ""},
 	{"/gomaxprocs", "7"}, {"/gomaxprocs", "07"}, {"/gomaxprocs", ""}, {"/gomaxprocs", "0"}, {"/gomaxprocs", "a"},
 	{"cfg", "v"}, {"cfg", ""}, {"missing", ""}, {"missing", "v"},
+	{"/a/k", "7"}, {"/a/k", ""}, {"/k/", ""}, {"/a/", "k"}, {"/k=", "7"}, {"/=", ""}, {"/-7", "a"}, {"/é", "7"},
 }
 
 type c05Env struct {
